@@ -15,7 +15,7 @@
 (* Time is discrete; Tick is urgent-blocked while a response or the timer  *)
 (* is due.                                                                 *)
 (***************************************************************************)
-EXTENDS Naturals, FiniteSets, Sequences, TLC, Json
+EXTENDS Naturals, FiniteSets, Sequences, TLC
 
 CONSTANTS NQ,        \* queries the client may send on this connection
           Idle,      \* idle time-out in ticks
@@ -84,7 +84,4 @@ Inv_NotEarly == conn = "closed" => closedAt >= lastAct + (IF Fix THEN 0 ELSE 0) 
 C03_Answered == \A i \in Q : (q[i].st = "inflight") ~> (q[i].st = "answered")
 TypeOK == now \in 0..MaxTime /\ conn \in {"open", "closed"}
 
-\* generation: one line per finished behaviour (connection closed): the client's script and what it must see
-Emit == conn = "closed" => PrintT(<<"SCN", ToJson([sends |-> stim, closed |-> closedAt,
-                                   lost |-> Cardinality({i \in Q : q[i].st = "lost"})])>>)
 =============================================================================
